@@ -1,6 +1,7 @@
 import SamVerif.Lemmas.LexerValid
 import SamVerif.Lemmas.LexerErr
 import SamVerif.Lemmas.ParserLoops
+import SamVerif.Lemmas.EntryPoint
 /-!
 # C05 — Any input text yields a result or diagnostics, never a crash or a hang
 
@@ -199,3 +200,44 @@ example : blockLoop id 5 [.other, .other, .rbrace, .cls] = some [.cls] := by dec
 example : matchLoop id 4 [.pat, .pat, .rbrace] = some [.rbrace] := by decide
 
 end SamVerif.ParserLoops
+
+namespace SamVerif.EntryPoint
+
+/-! ## entry points: the roots of generics specialisation are closed
+
+`compile_sources` must not panic on an accepted program. Entry points (`Main.main`) are rewritten
+with an empty type-replacement map; the selection predicate (`Model/EntryPoint.lean`, tied by the
+decision-table correspondence of `vlib/c05.py`) is exactly what makes that safe. -/
+
+/-- **entry_root_closed** (full strength): in a well-scoped program (every type a member mentions uses
+only type variables in its scope) an entry point mentions no type variable at all, so rewriting its
+types with the EMPTY replacement map - what generics specialisation does to its roots - never hits
+the `unwrap()` on a missing replacement. Each conjunct of `isEntryMember` is needed: see the
+counterexamples below. -/
+theorem entry_root_closed (c : Class) (m : Member) (t : Ty)
+    (hentry : isEntryMember m = true) (hscoped : ∀ v ∈ freeVars t, v ∈ scope c m) :
+    (substOpt [] t).isSome := by
+  apply substOpt_total
+  intro v hv
+  have hs := hscoped v hv
+  simp only [isEntryMember, Bool.and_eq_true, Bool.not_eq_true', beq_iff_eq, List.isEmpty_iff] at hentry
+  obtain ⟨⟨⟨_, hm⟩, _⟩, ht⟩ := hentry
+  simp [scope, hm, ht] at hs
+
+/-- dropping `tparams.isEmpty` (seeded fault C05f): a generic `main` that mentions `T` panics -/
+theorem entry_needs_no_tparams :
+    ∃ (c : Class) (m : Member) (t : Ty), m.isMainName ∧ !m.isMethod ∧ m.nParams = 0 ∧
+      (∀ v ∈ freeVars t, v ∈ scope c m) ∧ substOpt [] t = none :=
+  ⟨⟨true, [], []⟩, ⟨true, false, 0, [7]⟩, .fn [.generic 7] (.generic 7), by decide⟩
+
+/-- dropping `!isMethod` (finding C05-F8): a method `main` of `class Main<T>` that mentions `T` panics -/
+theorem entry_needs_static :
+    ∃ (c : Class) (m : Member) (t : Ty), m.isMainName ∧ m.nParams = 0 ∧ m.tparams = [] ∧
+      (∀ v ∈ freeVars t, v ∈ scope c m) ∧ substOpt [] t = none :=
+  ⟨⟨true, [3], []⟩, ⟨true, true, 0, []⟩, .nominal [.generic 3], by decide⟩
+
+
+example : isEntryClass ⟨true, [], [⟨true, false, 0, []⟩]⟩ = true := by decide
+example : isEntryClass ⟨true, [1], [⟨true, true, 0, []⟩]⟩ = false := by decide
+
+end SamVerif.EntryPoint
